@@ -895,6 +895,12 @@ func batchPieces(g *an.Graph, info *types.Info, r ast.Node, sliceFld, backlog, i
 			}
 		}
 	})
+	body := g.Enclosing(r, func(ast.Node) bool { return false }) // unused; resolution below works on the whole function body
+	_ = body
+	var root ast.Node = r
+	for p := g.Parent(root); p != nil; p = g.Parent(p) {
+		root = p
+	}
 	classify := func(a ast.Node) (w, h, t bool) {
 		as, ok := a.(*ast.AssignStmt)
 		if !ok || len(as.Lhs) != 1 || len(as.Rhs) != 1 {
@@ -909,6 +915,7 @@ func batchPieces(g *an.Graph, info *types.Info, r ast.Node, sliceFld, backlog, i
 			return
 		}
 		for _, arg := range call.Args[1:] {
+			arg = an.ResolveLocal(info, root, arg)
 			switch x := an.Unparen(arg).(type) {
 			case *ast.SliceExpr:
 				if isBatch(x.X) && x.High == nil && x.Low != nil && call.Ellipsis.IsValid() {
